@@ -10,6 +10,7 @@ import os
 import numpy
 
 from mc import core
+from mc import modlat as ml
 from mc import ref_units as ru
 
 LEVEL = 'exploration'
@@ -21,6 +22,7 @@ TOL_OPT = 5e-3      # results of SLSQP / bounded Brent searches (DFT, HK, DA exp
 P_REPS = ru.PRESSURE_REPS
 L_REPS = [r for r in ru.LOADING_REPS if r[0] not in ('fraction', 'percent')]
 Q_L = [('molar', 'mmol'), ('molar', 'mol'), ('molar', 'cm3(STP)'), ('mass', 'g'), ('mass', 'mg'), ('volume_gas', 'cm3'), ('volume_liquid', 'cm3'), ('volume_liquid', 'L')]
+SUPERFLUOUS_UNIT = [('relative', 'kPa'), ('relative', 'Pa'), ('relative%', 'torr'), ('relative', 'bar')]
 Q_P = [('absolute', 'bar'), ('absolute', 'Pa'), ('absolute', 'torr'), ('relative', None), ('relative%', None)]
 
 
@@ -485,12 +487,81 @@ def check_alpha_reference(ctx):
     ctx.add('alpha_s_reference_representations', ev, nt)
 
 
+def check_model_isotherms(ctx):
+    """ModelIsotherms (accepted by every entry point): one physical curve held as a model in several stored representations.
+
+    The model families used are closed under a rescaling of the axes (K -> K / unit factor, n_m -> n_m * unit factor), so the same
+    curve is written down exactly in each representation, with the pressure range the model declares rescaled alike.
+    """
+    import pygaps
+    E, _ = entries('quick')
+    T = 77.355
+    N2 = pygaps.Adsorbate.find('N2')
+    c = ru.ads_consts(N2.backend_name, T)
+    ev = nt = 0
+    curves = {
+        'BET curve': ('BET', {'n_m': 2.0, 'C': 80.0, 'N': 0.82}, ('C', 'N'), ('n_m',), (0.005, 0.93)),     # n = n_m C p / ((1 - N p)(1 - N p + C p))
+        'Langmuir curve': ('Langmuir', {'n_m': 3.0, 'K': 45.0}, ('K',), ('n_m',), (0.002, 0.9)),
+        'Toth curve': ('Toth', {'n_m': 4.0, 'K': 3000.0, 't': 0.45}, ('K',), ('n_m',), (3e-6, 0.95)),      # (no grid point on a limit used by the entries)
+    }
+    names = ['area_BET', 'area_BET(limits)', 'area_langmuir', 't_plot', 'dr_plot', 'da_plot(2.3)', 'psd_mesoporous(ads,slit)', 'psd_microporous(HK)', 'alpha_s']
+    preps = [('relative', None), ('relative%', None), ('absolute', 'bar'), ('absolute', 'kPa'), ('absolute', 'Pa'), ('absolute', 'torr')]
+    lreps = [('molar', 'mmol'), ('molar', 'mol'), ('mass', 'mg'), ('volume_gas', 'cm3')]
+    REF[0] = synthetic('reference', 1.0)
+    seen = set()
+
+    def mk(model, q, paff, pcap, prange, pm, pu, lb, lu):
+        with ru.library_tables():
+            fp = float(ru.c_pressure(1.0, 'relative', None, pm, pu, c))      # numbers on the pressure axis are multiplied by fp
+            fl = float(ru.c_loading(1.0, 'molar', 'mmol', lb, lu, c))
+        qq = {k: (v / fp if k in paff else (v * fl if k in pcap else v)) for k, v in q.items()}
+        m = ml.mk(model, qq, T)
+        m.pressure_range = (prange[0] * fp, prange[1] * fp)
+        m.loading_range = (float(m.loading(m.pressure_range[0])), float(m.loading(m.pressure_range[1])))
+        return pygaps.ModelIsotherm(model=m, material='c15m', adsorbate='N2', temperature=T, pressure_mode=pm, pressure_unit=pu, loading_basis=lb, loading_unit=lu,
+                                    material_basis='mass', material_unit='g', temperature_unit='K')
+
+    for cname, (model, q, paff, pcap, prange) in curves.items():
+        base = {name: core.call(E[name][0], mk(model, q, paff, pcap, prange, 'relative', None, 'molar', 'mmol'), timeout=300) for name in names}
+        for (pm, pu) in preps:
+            for (lb, lu) in lreps:
+                if (pm, pu, lb, lu) == ('relative', None, 'molar', 'mmol'):
+                    continue
+                if (pm, pu) not in (('relative', None), ('absolute', 'kPa')) and (lb, lu) != ('molar', 'mmol') and (lb, lu) != ('mass', 'mg'):
+                    continue
+                for name in names:
+                    b0 = base[name]
+                    if not b0.ok:
+                        continue
+                    o = core.call(E[name][0], mk(model, q, paff, pcap, prange, pm, pu, lb, lu), timeout=300)
+                    ev += 1
+                    cls = 'pressure' if (lb, lu) == ('molar', 'mmol') else ('loading' if (pm, pu) == ('relative', None) else 'both')
+                    tol, kinds = E[name][1], E[name][2]
+                    dev, key = (float('inf'), 'raises') if not o.ok else cmp_result(b0.value, o.value, max(tol, 1e-6), kinds, 1.0, 1.0)
+                    if o.ok:
+                        nt += 1
+                    if dev > max(tol, 1e-6):
+                        sig = {'check': 'unit-invariance', 'entry': name.split('(')[0], 'converted': cls, 'isotherm': 'model isotherm', 'kind': 'value' if o.ok else 'raises:' + o.kind}
+                        k = core.sig_key(sig)
+                        if k in seen:
+                            continue
+                        seen.add(k)
+                        ctx.violate(core.make_violation(
+                            sig, f'{name} on a ModelIsotherm ({cname}: {model}{q} in relative pressure, mmol/g) written in {(pm, pu, lb, lu)}: '
+                            + (f'result {key} differs by {dev:.3g} (relative)' if o.ok else o.brief()[:200]), {'curve': cname, 'rep': (pm, pu, lb, lu), 'result': key},
+                            b0.value.get(key) if o.ok else None, o.value.get(key) if o.ok else None))
+    ctx.add('model_isotherms', ev, nt)
+    ctx.require('model-isotherm analyses', nt, 200)
+
+
 def run(ctx):
     E, heavy = entries(ctx.tier)
     if ctx.quick:
         reps = [p + l + ('K',) for p in P_REPS for l in Q_L[:4]] + [p + l + ('K',) for p in Q_P[:2] for l in L_REPS] + [Q_P[1] + Q_L[3] + ('°C',), Q_P[3] + Q_L[0] + ('°C',)]
     else:
         reps = [p + l + (t,) for p in P_REPS for l in L_REPS for t in ('K', '°C')]
+    # a pressure unit given together with a relative target mode is documented as having no meaning: it must have no effect
+    reps += [p + l + ('K',) for p in SUPERFLUOUS_UNIT for l in (Q_L[0], Q_L[4])]
     reps = list(dict.fromkeys(reps))
     isos = ['MCM-41 N2 77.355.json', 'UiO-66(Zr) N2 77.355.json', 'type IV', 'type I']
     jobs = []
@@ -516,6 +587,7 @@ def run(ctx):
             ctx.track(k, v, {**{n.split('(')[0]: E[n][1] for n in E}, 'psd_dft': 0.1}.get(k, 1.0))
     check_isosteric(ctx)
     check_alpha_reference(ctx)
+    check_model_isotherms(ctx)
     ctx.cov['analyses_not_returning_on_the_original_representation'] = nr
     ctx.cov['domain_sizes'] = {'entry_points': len(E) + len(heavy), 'representations': len(reps), 'isotherms': len(isos)}
     ctx.cov['rule'] = ('every characterisation entry point x stored representations (thorough: 10 pressure x 25 loading x 2 temperature units; quick: 10 x 4 + 2 x 25 + Celsius samples) x '
